@@ -14,6 +14,7 @@ from __future__ import annotations
 
 import ast
 import itertools
+import re
 
 from .core import norm
 from .flow import Domain
@@ -271,3 +272,69 @@ def _names_in(f) -> set[str]:
     for a in atoms_of(f):
         out.update(re.findall(r'[A-Za-z_]\w*', a))
     return out
+
+
+# ------------------------------------------------------------------ symbolic values of locals
+def sym_values(max_len: int = 200):
+    """-> (upd, resolve).  `upd` is a PathCond `upd` callback that keeps, per path, the defining
+    expression of every plainly assigned local (`val:x=<expr>` with earlier locals substituted);
+    `resolve(state, e)` is e with those locals replaced.  A reassignment retracts every value that
+    mentions the name, so the text is always valid at the point where it is read."""
+    def _vals(facts) -> dict[str, str]:
+        out = {}
+        for f in facts:
+            if f.startswith('val:'):
+                k, v = f[4:].split('=', 1)
+                out[k] = v
+        return out
+
+    def _sub(e: ast.AST, vals: dict[str, str]) -> ast.AST:
+        from .normalise import clone
+
+        class T(ast.NodeTransformer):
+            def visit_Name(self, node):
+                if isinstance(node.ctx, ast.Load) and node.id in vals:
+                    return ast.parse(vals[node.id], mode='eval').body
+                return node
+        return T().visit(clone(e))
+
+    def upd(st, facts):
+        tgts: list[tuple[str, ast.AST | None]] = []
+        if isinstance(st, ast.Assign):
+            for t in st.targets:
+                if isinstance(t, ast.Name):
+                    tgts.append((t.id, st.value if len(st.targets) == 1 else None))
+                else:
+                    tgts.extend((x.id, None) for x in ast.walk(t)
+                                if isinstance(x, ast.Name) and isinstance(x.ctx, ast.Store))
+        elif isinstance(st, ast.AnnAssign) and isinstance(st.target, ast.Name) and st.value is not None:
+            tgts.append((st.target.id, st.value))
+        elif isinstance(st, ast.AugAssign) and isinstance(st.target, ast.Name):
+            tgts.append((st.target.id, ast.BinOp(left=ast.Name(id=st.target.id, ctx=ast.Load()), op=st.op,
+                                                 right=st.value)))
+        elif isinstance(st, (ast.For,)):
+            tgts.extend((x.id, None) for x in ast.walk(st.target) if isinstance(x, ast.Name))
+        if not tgts:
+            return facts
+        vals = _vals(facts)
+        for name, val in tgts:
+            new = None
+            if val is not None and not any(isinstance(x, (ast.Await, ast.NamedExpr, ast.Lambda)) for x in ast.walk(val)):
+                try:
+                    text = ast.unparse(_sub(val, vals))
+                except Exception:       # noqa: BLE001 - not representable, drop the value
+                    text = None
+                if text is not None and len(text) <= max_len:
+                    new = text
+            pat = re.compile(rf'\b{re.escape(name)}\b')
+            facts = frozenset(f for f in facts if not (f.startswith('val:') and
+                                                       (f.startswith(f'val:{name}=') or pat.search(f.split('=', 1)[1]))))
+            vals = _vals(facts)
+            if new is not None and not pat.search(new):
+                facts = facts | {f'val:{name}={new}'}
+                vals[name] = new
+        return facts
+
+    def resolve(state, e: ast.AST) -> ast.AST:
+        return _sub(e, _vals(state[2]))
+    return upd, resolve
